@@ -50,4 +50,7 @@ def DataFrame_sort_key (truth : Term → Bool) (dir : Int) : Out :=
           else
             Out.ret [] (if decide (dir > (0 : Int)) then column' else (Term.app "neg" [column']))
 
+/-- the decorators of dataiter/data_frame.py: DataFrame.sort.sort_key, outermost first -/
+def DataFrame_sort_key_decorators : List String := []
+
 end DI.Gen
